@@ -27,7 +27,6 @@ further keys  undo_redo-yields-add-before-remove (the real logic function called
 block the previous commands left the CLI in: same block, the block just opened, or the enclosing one after the exit word)
 """
 import itertools
-import random
 import types
 from collections import OrderedDict as odict
 
@@ -438,10 +437,10 @@ def compare(rbt, before, new, dev2):
                         o = _slot_row(before, bp[:i], rbt, rule, key)
                         if o is not None and o != bp[i]:
                             repl = repl or devsim.logic_of(rule)
-            if repl:
-                cls = "block-row-replaced:" + repl
-            elif per_rule(ov_e) == per_rule(ov_g):
+            if per_rule(ov_e) == per_rule(ov_g):
                 cls = "ordered:across-rules"
+            elif repl:
+                cls = "block-row-replaced:" + repl
             elif _ordered_replaced(rbt, before, new):
                 cls = "ordered:row-replaced-in-slot"
             else:
@@ -517,7 +516,7 @@ def check_chain(vendor, rbt, ordt, chain):
 # enumeration
 def _bounds(tier):
     if tier == "thorough":
-        return dict(pair_cap=4000, ucap=1500, rnd_pairs=1200, chains=160, big=300)
+        return dict(pair_cap=3600, ucap=1500, rnd_pairs=1000, chains=150, big=250)
     return dict(pair_cap=500, ucap=400, rnd_pairs=160, chains=24, big=0)
 
 
